@@ -45,7 +45,7 @@ def scan_trusted(ex):
         t = l.text
         code = t.split("//")[0]
         for kw in ("assume_specification", "external_body", "external_type_specification", "external_fn_specification",
-                   "admit(", "assume(", "#[verifier::external", "axiom", "#[verifier::trusted", "no_decreases", "exec_allows_no_decreases_clause", "assume_termination"):
+                   "admit(", "assume(", "SpecImpl", "#[verifier::external", "axiom", "#[verifier::trusted", "no_decreases", "exec_allows_no_decreases_clause", "assume_termination"):
             if kw in code:
                 if kw == "#[verifier::external" and "external_body" in code:
                     continue
@@ -77,7 +77,7 @@ def run_unit(unit, repo=None, rlimit=30, extra_args=None, variant=None, mutate=N
     txt = ex.text()
     if mutate:
         txt = mutate(txt)
-    fn = os.path.join(BUILD, "%s%s.rs" % (unit, ("." + variant) if variant else ""))
+    fn = os.path.join(BUILD, "%s%s.rs" % (unit, ("_" + variant) if variant else ""))
     with open(fn, "w") as f:
         f.write(txt)
     res.file = fn
@@ -139,7 +139,7 @@ def run_unit(unit, repo=None, rlimit=30, extra_args=None, variant=None, mutate=N
     for it in ex.items:
         if it.imported:
             continue
-        if it.is_fn and it.mode == "full":
+        if (it.is_fn or it.path[-1].startswith("impl ")) and it.mode == "full":
             add("%s.%s.safety" % (it.unit, it.id), it.props, "safety",
                 "%s:%d %s: no panic / overflow / failed precondition / non-termination; unlabelled clauses" % (it.file, it.repo_line, " / ".join(it.path)))
             for lb in it.labels:
